@@ -4,7 +4,7 @@ PART = {
     "C16": {
         "runs": [{"name": "pure", "pkg": P, "run": "^TestVF_C16$"}],
         "rule": "points (period,genesis,instant) and (period,genesis,round) checked against a math/big reference: exhaustive small grid, "
-                "boundary-directed instants t=g+k*p+{-1,0,1} for k up to 2^50/p and p in {2^k-1,2^k,2^k+1}, rounds around the overflow guard "
+                "boundary-directed instants t=g+k*p+{-1,0,1} for k up to 2^50/p and p in {2^k-3 .. 2^k+2}, rounds around the overflow guard "
                 "and the last schedulable round, plus seeded random points; non-trivial = grid/boundary/guard points, distinct by (p,g,t|r)",
         "assumptions": ["math/big arithmetic is the reference", "periods are whole seconds (as the system produces them)"],
     },
